@@ -258,6 +258,7 @@ pub fn run(tier: &str, only: Option<String>) -> i32 {
     }
 
     // (a) schedules
+    let mut machinery_note: Option<String> = None;
     let vsched = std::env::var("VSCHED_BIN").ok().filter(|s| !s.is_empty());
     let skip_a = run.only.as_ref().map(|k| !k.starts_with("sched:")).unwrap_or(false);
     match (vsched, skip_a) {
@@ -279,7 +280,8 @@ pub fn run(tier: &str, only: Option<String>) -> i32 {
             }
             let mut schedules = 0u64;
             let mut harnesses = 0u64;
-            for (out, mut ch) in children {
+            let mut failing_parts: Vec<(usize, serde_json::Value)> = Vec::new();
+            for (pi, (out, mut ch)) in children.into_iter().enumerate() {
                 let limit = std::time::Duration::from_secs(if thorough { 4 * 3600 } else { 20 * 60 });
                 let Some(status) = bridge::rt::wait_with_timeout(&mut ch, limit) else {
                     eprintln!("MACHINERY: schedule explorer did not finish within {limit:?}");
@@ -296,12 +298,8 @@ pub fn run(tier: &str, only: Option<String>) -> i32 {
                 for c in v["capped"].as_array().cloned().unwrap_or_default() {
                     run.caps_hit.push(format!("schedule cap {} reached in harness {}", v["cap"], c));
                 }
-                for x in v["violations"].as_array().cloned().unwrap_or_default() {
-                    if x["reproducible"].as_bool() != Some(true) {
-                        eprintln!("MACHINERY: a schedule failure did not reproduce on the second exploration (uncontrolled nondeterminism): {x}");
-                        return 2;
-                    }
-                    run.stats.violate(x["fingerprint"].as_str().unwrap_or("C18 interleaving").to_string(), x["key"].as_str().unwrap_or("").to_string(), x["detail"].clone());
+                if v["violations"].as_array().map(|a| !a.is_empty()).unwrap_or(false) {
+                    failing_parts.push((pi, v["violations"].clone()));
                 }
                 if let Some(a) = v["per_harness"].as_array() {
                     if let Some(h) = a.iter().max_by_key(|h| h["schedules"].as_u64().unwrap_or(0)) {
@@ -309,6 +307,36 @@ pub fn run(tier: &str, only: Option<String>) -> i32 {
                             run.stats.sample(json!({"schedule_harness": h["harness"], "schedules_explored": h["schedules"]}));
                         }
                     }
+                }
+            }
+            // a failure is believed only if the same part, replayed in two fresh processes, gives
+            // identical observations both times (the explorer must own every choice)
+            for (pi, first) in failing_parts {
+                let mut replays = Vec::new();
+                for r in 0..2 {
+                    let out = format!("/verif/.child-C18-replay-{pi}-{r}.json");
+                    let _ = std::fs::remove_file(&out);
+                    let mut cmd = std::process::Command::new(&bin);
+                    cmd.arg("--tier").arg(tier).arg("--part").arg(pi.to_string()).arg(parts.to_string()).arg("--out").arg(&out);
+                    if let Some(k) = &run.only {
+                        cmd.arg("--only").arg(k);
+                    }
+                    cmd.stderr(std::process::Stdio::null());
+                    let mut ch = cmd.spawn().expect("spawn vsched replay");
+                    if bridge::rt::wait_with_timeout(&mut ch, std::time::Duration::from_secs(4 * 3600)).is_none() {
+                        eprintln!("MACHINERY: schedule replay did not finish");
+                        return 2;
+                    }
+                    let v: serde_json::Value = serde_json::from_str(&std::fs::read_to_string(&out).unwrap_or_default()).unwrap_or(json!({}));
+                    let _ = std::fs::remove_file(&out);
+                    replays.push(v["violations"].clone());
+                }
+                if replays[0] != replays[1] || replays[0] != first {
+                    machinery_note = Some(format!("schedule failures of part {pi} did not reproduce identically in two fresh processes (uncontrolled nondeterminism in the harness): first={first} replay1={} replay2={}", replays[0], replays[1]));
+                    continue;
+                }
+                for x in first.as_array().cloned().unwrap_or_default() {
+                    run.stats.violate(x["fingerprint"].as_str().unwrap_or("C18 interleaving").to_string(), x["key"].as_str().unwrap_or("").to_string(), x["detail"].clone());
                 }
             }
             run.stats.states += schedules;
@@ -326,5 +354,10 @@ pub fn run(tier: &str, only: Option<String>) -> i32 {
         "interleavings are at the granularity of scheduling points: shuttle lazy_static accesses of derived metadata, desert_verif hook points, spawn/join".into(),
         "std::sync::Once under lazy_static is replaced by shuttle's model for derived metadata (trusted); EMPTY_ADT_METADATA keeps the real lazy_static".into(),
     ];
-    run.finish()
+    let code = run.finish();
+    if let Some(n) = machinery_note {
+        eprintln!("MACHINERY: {n}");
+        return if code == 0 { 2 } else { code };
+    }
+    code
 }
